@@ -21,7 +21,12 @@ RULE = ('group cases = (constructor, parameter): the table is built by numqi, ch
         'of two irreps fed back to reduce_group_representation (non-trivial when the product has dimension >= 2). Partition '
         'cases = N (count, full table, diagram list), non-trivial for N >= 2. Tableau cases = a Young diagram: all its standard '
         'tableaux enumerated by numqi and each one checked; non-trivial when the shape has >= 2 rows and >= 2 columns '
-        '(otherwise exactly one tableau); distinct by shape')
+        '(otherwise exactly one tableau); distinct by shape. History cases (shard histories, ONE process): A_n requested BEFORE '
+        'S_n for n=5..2 (the other shards do S_n first), dihedral/cyclic/multiplicative of the same n interleaved downwards, every '
+        'constructor repeated at the end and compared with its first result; every array-returning function called, its result '
+        'edited in place by the caller, and called again; refilled work buffers (table, representation, shape); the same table / '
+        'representation / shape as int32, float64, complex128, Fortran, strided and transposed views, lists and tuples, numpy-integer '
+        'parameters; every contract snapshots its array arguments and reports <fn>/mutates-argument')
 EXHAUSTIVE = {'quick': True, 'thorough': True}
 EXHAUSTIVE_DOMAINS = {
     'quick': ['tables S2..S4, A2..A4, D3..D8, C2..C12, (Z/n)* n=3..24, V4, Q8: all N^2 pairs and N^3 triples each',
@@ -45,7 +50,7 @@ DECIDING = ['numqi.group._symmetric.get_symmetric_group_cayley_table', 'numqi.gr
             'numqi.group._symmetric.get_sym_group_num_irrep', 'numqi.group._symmetric.get_sym_group_young_diagram',
             'numqi.group._symmetric.get_all_young_tableaux', 'numqi.group._symmetric.get_hook_length',
             'reduce/regular-representation-with-known-table', 'reduce/certified-representation-of-known-group',
-            'workload/sum-f2==N!']
+            'workload/sum-f2==N!', 'workload/history']
 TECHNIQUE = ('postconditions on the real group/partition/tableau functions against integer-exact references (all-triples '
              'associativity, conjugacy classes, independently built S_n/A_n/D_n/C_n/(Z/n)*/V4/Q8 for isomorphism invariants, '
              'three partition recurrences, hook lengths from the definition, corner-removal tableau count)')
@@ -61,12 +66,30 @@ GHOST = {'table': None}   # producer-registered certificate: "the next represent
 
 def shards(tier, seed):
     ret = [{'name': 'table-S5'}, {'name': 'table-A5'}, {'name': 'tables'}, {'name': 'partitions'}, {'name': 'tableaux'},
-           {'name': 'symext'}]
+           {'name': 'symext'}, {'name': 'histories'}]
     if tier == 'thorough':
         ret = [{'name': 'tableaux-N14', 'timeout_s': 3600}, {'name': 'tableaux-N13'}, {'name': 'partitions-large'}, {'name': 'tableaux-N12'}, {'name': 'repo-tests'},
                {'name': 'tables-large-dihedral'}, {'name': 'tables-large-cyclic'}, {'name': 'tables-large-multiplicative'},
                {'name': 'tableaux-N11'}, {'name': 'tableaux-N10'}] + ret
     return ret
+
+
+def _snap(a):
+    """value snapshot of an argument at call time"""
+    if isinstance(a, np.ndarray):
+        return np.array(a, copy=True, order='C')
+    if isinstance(a, list):
+        return [_snap(x) for x in a]
+    return a
+
+
+def _unchanged(cur, snp):
+    if isinstance(snp, np.ndarray):
+        return isinstance(cur, np.ndarray) and cur.shape == snp.shape and cur.dtype == snp.dtype and np.array_equal(cur, snp)
+    if isinstance(snp, list):
+        return isinstance(cur, list) and len(cur) == len(snp) and all(_unchanged(a, b) if isinstance(b, (np.ndarray, list)) else a == b
+                                                                       for a, b in zip(cur, snp))
+    return True
 
 
 # ============================================================================================ monitors
@@ -76,6 +99,15 @@ def install(ctx, numqi):
     state = {'depth': 0, 'table': None}
     ref_inv_cache = {}
     worst = ctx.extra.setdefault('worst', {'unitarity': 0.0, 'homomorphism': 0.0, 'character_gram': 0.0, 'decomposition': 0.0})
+
+    def arg_unmodified(fn, name, cur, snp):
+        """(3) a monitored function must not modify its array / list arguments (one evaluation per call)"""
+        if isinstance(snp, (np.ndarray, list)):
+            if _unchanged(cur, snp):
+                ctx.evaluations += 1
+            else:
+                ctx.check(False, f'{fn}/mutates-argument', f'{fn} modified its argument {name} in place',
+                          {'argument': name, 'before': snp, 'after': cur})
 
     def ref_invariants(kind, args, fn):
         k = (kind,) + tuple(args)
@@ -153,11 +185,15 @@ def install(ctx, numqi):
     ctx.attach(GI, 'get_quaternion_cayley_table', post=post_quaternion)
 
     # ---------------------------------------------------------------- left regular form
+    def pre_left_regular(c):
+        return _snap(c.arg(0, 'index_tuple'))
+
     def post_left_regular(c):
+        arg_unmodified('left_regular', 'index_tuple', c.arg(0, 'index_tuple'), c.snap)
         if c.exc is not None:
             return
         try:
-            t = np.asarray(c.arg(0, 'index_tuple'))
+            t = np.asarray(c.snap if isinstance(c.snap, (np.ndarray, list)) else c.arg(0, 'index_tuple'))   # call-time contents
         except Exception:
             t = None
         if t is None or t.ndim != 2 or t.shape[0] > MAX_TABLE or not rf.table_report(t, MAX_TABLE)['ok']:
@@ -181,7 +217,7 @@ def install(ctx, numqi):
         ctx.check(len({row.tobytes() for row in p}) == N, 'left_regular/not-faithful', 'two group elements have the same matrix', {'N': N})
         ctx.check(np.array_equal(p[rf.identity_of(t)], np.arange(N)), 'left_regular/identity', 'L[e] is not the identity matrix', {'N': N})
 
-    ctx.attach(GI, 'cayley_table_to_left_regular_form', post=post_left_regular)
+    ctx.attach(GI, 'cayley_table_to_left_regular_form', pre=pre_left_regular, post=post_left_regular)
 
     # ---------------------------------------------------------------- reduction into irreps
     def is_hom(rep, t, tol):
@@ -191,10 +227,11 @@ def install(ctx, numqi):
     def pre_reduce(c):
         d = state['depth']
         state['depth'] += 1
+        np0 = c.arg(0, 'np0')
+        snap = {'depth': d, 'np0': _snap(np0) if isinstance(np0, np.ndarray) and np0.size <= 4_000_000 else None}
         if d == 0:
             state['table'] = None
             state['regular'] = False
-            np0 = c.arg(0, 'np0')
             if isinstance(np0, np.ndarray) and np0.ndim == 3 and np0.shape[1] == np0.shape[2]:
                 N = np0.shape[0]
                 if np0.shape[1] == N and N <= MAX_TABLE:
@@ -211,14 +248,17 @@ def install(ctx, numqi):
                         state['table'] = gt
                         state['regular'] = False
                         ctx.hit('reduce/certified-representation-of-known-group')
-        return d
+        return snap
 
     def post_reduce(c):
         state['depth'] -= 1
-        depth = c.snap if c.snap is not None else 0
+        depth = c.snap['depth'] if c.snap is not None else 0
+        np0 = c.arg(0, 'np0')
+        if c.snap is not None and c.snap['np0'] is not None:
+            arg_unmodified('reduce', 'np0', np0, c.snap['np0'])
+            np0 = c.snap['np0']   # judged against the call-time contents
         if c.exc is not None:
             return
-        np0 = c.arg(0, 'np0')
         if not (isinstance(np0, np.ndarray) and np0.ndim == 3 and np0.shape[1] == np0.shape[2]):
             return
         N, dim = np0.shape[0], np0.shape[1]
@@ -247,6 +287,11 @@ def install(ctx, numqi):
                 ctx.check(e_h <= TOL_U, 'irrep/not-homomorphism', 'an extracted block is not a homomorphism D(a)D(b)=D(ab) of the table',
                           {**info, 'd': d, 'err': e_h})
             chars.append(np.trace(xc, axis1=1, axis2=2))
+        if isinstance(c.arg(0, 'np0'), np.ndarray) and len(ret) > 1:
+            # a returned block may be the argument itself only when nothing was reduced ([np0]); otherwise it must not
+            # share memory with the caller's array (editing the result would edit the representation)
+            ctx.check(not any(np.may_share_memory(x, c.arg(0, 'np0')) for x in ret), 'irrep/result-aliases-argument',
+                      'a returned irrep block shares memory with the input representation', info)
         chars = np.stack(chars)
         gram = chars @ chars.conj().T / N
         diag_err = float(np.abs(np.diag(gram) - 1).max())
@@ -329,11 +374,15 @@ def install(ctx, numqi):
     def shape_mask(shape):
         return np.array([[j < r for j in range(shape[0])] for r in shape], dtype=bool)
 
+    def pre_arg0(c):
+        return _snap(c.args[0]) if c.args else None
+
     def post_tableaux(c):
+        arg_unmodified('tableaux', 'young', c.arg(0, 'young'), c.snap)
         if c.exc is not None:
             return
         try:
-            shape = tuple(int(x) for x in np.asarray(c.arg(0, 'young')).reshape(-1).tolist())
+            shape = tuple(int(x) for x in np.asarray(c.snap if isinstance(c.snap, (np.ndarray, list)) else c.arg(0, 'young')).reshape(-1).tolist())
         except Exception:
             shape = ()
         if not shape or not ry.is_partition(shape):
@@ -367,7 +416,7 @@ def install(ctx, numqi):
         nd = len(np.unique(z.reshape(len(z), -1), axis=0))
         ctx.check(nd == len(z), 'tableaux/duplicates', 'the same tableau is listed twice', {'young': shape, 'listed': int(len(z)), 'distinct': int(nd)})
 
-    ctx.attach(GS, 'get_all_young_tableaux', post=post_tableaux)
+    ctx.attach(GS, 'get_all_young_tableaux', pre=pre_arg0, post=post_tableaux)
 
     def post_hook(c):
         if c.exc is not None:
@@ -388,10 +437,11 @@ def install(ctx, numqi):
     ctx.attach(GS, 'get_hook_length', post=post_hook)
 
     def post_transpose(c):
+        arg_unmodified('young_transpose', 'np0', c.arg(0, 'np0'), c.snap)
         if c.exc is not None:
             return
         try:
-            shape = tuple(int(x) for x in np.asarray(c.arg(0, 'np0')).reshape(-1).tolist())
+            shape = tuple(int(x) for x in np.asarray(c.snap if isinstance(c.snap, (np.ndarray, list)) else c.arg(0, 'np0')).reshape(-1).tolist())
         except Exception:
             return
         if shape and ry.is_partition(shape):
@@ -399,13 +449,14 @@ def install(ctx, numqi):
             ctx.check(r.ndim == 1 and tuple(int(x) for x in r.tolist()) == ry.conjugate(shape), 'young_transpose/value',
                       'transpose differs from the conjugate partition', {'young': shape, 'got': r})
 
-    ctx.attach(GS, 'get_young_diagram_transpose', post=post_transpose)
+    ctx.attach(GS, 'get_young_diagram_transpose', pre=pre_arg0, post=post_transpose)
 
     def post_mask(c):
+        arg_unmodified('young_mask', 'young', c.arg(0, 'young'), c.snap)
         if c.exc is not None:
             return
         try:
-            shape = tuple(int(x) for x in np.asarray(c.arg(0, 'young')).reshape(-1).tolist())
+            shape = tuple(int(x) for x in np.asarray(c.snap if isinstance(c.snap, (np.ndarray, list)) else c.arg(0, 'young')).reshape(-1).tolist())
         except Exception:
             return
         if shape and ry.is_partition(shape):
@@ -413,7 +464,7 @@ def install(ctx, numqi):
             ref = shape_mask(shape).astype(np.int64)
             ctx.check(r.shape == ref.shape and np.array_equal(r, ref), 'young_mask/value', 'mask[i,j] != (j < row length i)', {'young': shape, 'got': r})
 
-    ctx.attach(GS, 'get_young_diagram_mask', post=post_mask)
+    ctx.attach(GS, 'get_young_diagram_mask', pre=pre_arg0, post=post_mask)
 
 
 # ============================================================================================ workloads
@@ -629,10 +680,252 @@ def run(ctx, shard):
             import io
             with contextlib.redirect_stdout(io.StringIO()):
                 G.print_all_young_tableaux(5)
+    elif name == 'histories':
+        _histories(ctx, numqi, G, rng, group_case, shape_case, partition_cases)
     elif name == 'repo-tests':
         ctx.workload('repo-tests')
         _run_repo_tests(ctx, ['tests/tests_group/test_group_basic.py', 'tests/tests_group/test_group_symmetric.py',
                               'tests/tests_group/test_group_symext.py'])
+
+
+def _eq(a, b):
+    """deep, exact equality of results (arrays by shape/dtype/value, tuples/lists elementwise)"""
+    if isinstance(a, np.ndarray) or isinstance(b, np.ndarray):
+        return isinstance(a, np.ndarray) and isinstance(b, np.ndarray) and a.shape == b.shape and a.dtype == b.dtype and np.array_equal(a, b)
+    if isinstance(a, (tuple, list)):
+        return type(a) is type(b) and len(a) == len(b) and all(_eq(x, y) for x, y in zip(a, b))
+    return type(a) is type(b) and a == b
+
+
+def _deepcopy(a):
+    if isinstance(a, np.ndarray):
+        return a.copy()
+    if isinstance(a, (tuple, list)):
+        return type(a)(_deepcopy(x) for x in a)
+    return a
+
+
+def _arrays(a):
+    if isinstance(a, np.ndarray):
+        yield a
+    elif isinstance(a, (tuple, list)):
+        for x in a:
+            yield from _arrays(x)
+
+
+def _scribble(a):
+    """the caller edits a returned object in place (every writeable array inside it)"""
+    k = 0
+    for x in _arrays(a):
+        if x.flags.writeable and x.size:
+            x[...] = x[(slice(None, None, -1),) * x.ndim] + 1
+            k += 1
+    return k
+
+
+def _histories(ctx, numqi, G, rng, group_case, shape_case, partition_cases):
+    """(1) histories on one object / one process, (2) call order inside ONE process, (3) argument mutation (by the
+    contracts, which snapshot their array arguments), (4) integer types / dtypes / memory layouts of in-domain inputs."""
+    quick = ctx.tier == 'quick'
+    first = {}
+
+    def remember(key, build):
+        """call a constructor; the result must equal the first result of the same call in this process"""
+        r = build()
+        if key in first:
+            ctx.check(_eq(r, first[key]), f'{key[0]}/differs-between-calls',
+                      f'{key[0]}{tuple(key[1:])} returns something else than earlier in the same process (call-order / history dependent)',
+                      lambda: {'call': list(key), 'first_shape': [np.shape(x) for x in _arrays(first[key])], 'now_shape': [np.shape(x) for x in _arrays(r)]},
+                      point='workload/history')
+        else:
+            first[key] = _deepcopy(r)
+        return r
+
+    sym = lambda n: remember(('table/symmetric', n), lambda: G.get_symmetric_group_cayley_table(n))
+    alt = lambda n: remember(('table/alternating', n), lambda: G.get_symmetric_group_cayley_table(n, alternating=True))
+    dih = lambda n: remember(('table/dihedral', n), lambda: G.get_dihedral_group_cayley_table(n))
+    cyc = lambda n: remember(('table/cyclic', n), lambda: G.get_cyclic_group_cayley_table(n))
+    mul = lambda n: remember(('table/multiplicative', n), lambda: G.get_multiplicative_group_cayley_table(n))
+    kle = lambda: remember(('table/klein',), G.get_klein_four_group_cayley_table)
+    qua = lambda: remember(('table/quaternion',), G.get_quaternion_cayley_table)
+
+    # ---- (2) call order: the alternating group BEFORE the symmetric group of the same n, large n before small n, in a
+    # fresh process (the other shards build S_n first and go upwards); dihedral / cyclic / multiplicative of the same n interleaved
+    ctx.workload('corner')
+    for n in (5, 4, 3, 2):
+        group_case('alternating', (n,), lambda: alt(n), irreps=(n <= 4 or not quick))
+        group_case('symmetric', (n,), lambda: sym(n), irreps=(n <= 4 or not quick))
+        group_case('alternating', (n,), lambda: alt(n), irreps=False)
+    for n in range(12, 2, -1):
+        group_case('dihedral', (n,), lambda: dih(n), irreps=(n % 3 == 0))
+        group_case('cyclic', (n,), lambda: cyc(n), irreps=(n % 3 == 1))
+        group_case('cyclic', (2 * n,), lambda: cyc(2 * n), irreps=False)
+        group_case('multiplicative', (n,), lambda: mul(n), irreps=(n % 3 == 2))
+        group_case('dihedral', (n,), lambda: dih(n), irreps=False)
+    group_case('klein', (), kle)
+    group_case('quaternion', (), qua)
+    group_case('klein', (), kle, irreps=False)
+    # partition functions: large N first, full table before the plain count; diagrams downwards
+    partition_cases(range(30, 0, -1), 14)
+    for N in (7, 6, 5, 4, 3, 2, 1):
+        for sh in reversed(list(ry.partitions(N))):
+            shape_case(sh)
+
+    # ---- (1) edit-the-result-then-call-again, for every monitored function returning arrays (or lists of arrays)
+    ctx.workload('random')
+    tS3 = np.array(first.get(('table/symmetric', 3)))
+    L3 = rf.left_regular(rf.ref_symmetric(3))
+    L8 = rf.left_regular(rf.ref_quaternion())
+    calls = [
+        ('table/symmetric', (3,), lambda: G.get_symmetric_group_cayley_table(3)),
+        ('table/symmetric', (4,), lambda: G.get_symmetric_group_cayley_table(4)),
+        ('table/symmetric', (4, 'alternating'), lambda: G.get_symmetric_group_cayley_table(4, alternating=True)),   # same lru_cache'd helper
+        ('table/dihedral', (5,), lambda: G.get_dihedral_group_cayley_table(5)),
+        ('table/cyclic', (6,), lambda: G.get_cyclic_group_cayley_table(6)),
+        ('table/multiplicative', (15,), lambda: G.get_multiplicative_group_cayley_table(15)),
+        ('table/klein', (), G.get_klein_four_group_cayley_table),
+        ('table/quaternion', (), G.get_quaternion_cayley_table),
+        ('left_regular', ('S3',), lambda: G.cayley_table_to_left_regular_form(rf.ref_symmetric(3))),
+        ('reduce', ('S3',), lambda: G.reduce_group_representation(L3)),
+        ('reduce', ('Q8',), lambda: G.reduce_group_representation(L8)),
+        ('num_irrep', (7, 'full'), lambda: G.get_sym_group_num_irrep(7, return_full=True)),
+        ('num_irrep', (3, 'full'), lambda: G.get_sym_group_num_irrep(3, return_full=True)),
+        ('young_diagram', (7,), lambda: G.get_sym_group_young_diagram(7)),
+        ('young_diagram', (3,), lambda: G.get_sym_group_young_diagram(3)),
+        ('tableaux', ((3, 2, 1),), lambda: G.get_all_young_tableaux((3, 2, 1))),
+        ('tableaux', ((4,),), lambda: G.get_all_young_tableaux((4,))),
+        ('young_transpose', ((4, 2, 1),), lambda: G.get_young_diagram_transpose((4, 2, 1))),
+        ('young_mask', ((4, 2, 1),), lambda: G.get_young_diagram_mask((4, 2, 1))),
+        ('hook_length', ((4, 3, 1, 1),), lambda: G.get_hook_length(4, 3, 1, 1)),
+    ]
+    for fn, args, call in calls:
+        ctx.set_case({'op': 'edit-result-then-call-again', 'fn': fn, 'args': list(args)})
+        ctx.case('history-edit-result', fn, args)
+        with ctx.guard(f'history/{fn}'):
+            r1 = call()                       # monitored: the contract judges the first result
+            snap = _deepcopy(r1)
+            edited = _scribble(r1)
+            with ctx.quiet():
+                r2 = call()                   # unmonitored: judged here, against the first result, with a specific key
+            same = _eq(r2, snap)
+            aliased = any(np.may_share_memory(x, y) for x in _arrays(r2) for y in _arrays(r1))
+            ctx.check(same or not aliased, f'{fn}/result-aliases-cache',
+                      f'{fn}: the returned array IS the library\'s cached object: after the caller edited it in place the same call returns the edited data',
+                      lambda: {'fn': fn, 'args': list(args), 'arrays_edited': edited, 'first': snap, 'second_call_returns': r2}, point='workload/history')
+            ctx.check(same or aliased, f'{fn}/stale-after-result-edit',
+                      f'{fn}: after the caller edited the first result in place the same call returns something else',
+                      lambda: {'fn': fn, 'args': list(args), 'first': snap, 'second': r2}, point='workload/history')
+            if aliased:
+                for x, y in zip(_arrays(r1), _arrays(snap)):   # put the library's cache back (it was the caller's edit)
+                    if x.flags.writeable:
+                        x[...] = y
+
+    # ---- (1) work buffers: one array / list object refilled between calls; the contracts judge the current contents
+    ref6 = [('S3', rf.ref_symmetric(3)), ('D3', rf.ref_dihedral(3)), ('C6', rf.ref_cyclic(6)), ('S3', rf.ref_symmetric(3))]
+    tbuf = np.zeros((6, 6), dtype=np.int64)
+    Lbuf = np.zeros((6, 6, 6), dtype=np.int64)
+    Cbuf = np.zeros((6, 6, 6), dtype=np.complex128)
+    for nm, t in ref6:
+        ctx.set_case({'op': 'work-buffer', 'fn': 'left_regular/reduce', 'contents': nm})
+        ctx.case('history-buffer', nm)
+        with ctx.guard('history/work-buffer'):
+            tbuf[...] = t
+            L = G.cayley_table_to_left_regular_form(tbuf)
+            ctx.check(_eq(L, rf.left_regular(t)), 'left_regular/stale-after-inplace-update', 'a refilled table buffer gives the form of its earlier contents',
+                      {'contents': nm}, point='workload/history')
+            ncls = len(rf.conjugacy_classes(t))
+            for buf in (Lbuf, Cbuf):
+                buf[...] = rf.left_regular(t)
+                ir = G.reduce_group_representation(buf)
+                ctx.check(isinstance(ir, list) and len(ir) == ncls, 'reduce/stale-after-inplace-update',
+                          'a refilled representation buffer is reduced like its earlier contents (number of irreps != classes of the current group)',
+                          {'contents': nm, 'dtype': str(buf.dtype), 'n_irrep': len(ir) if isinstance(ir, list) else None, 'n_classes': ncls}, point='workload/history')
+    sbuf = np.zeros(3, dtype=np.int64)
+    slst = [0, 0, 0]
+    for sh in [(3, 2, 1), (4, 1, 1), (2, 2, 2), (5, 3, 1), (3, 2, 1)]:
+        ctx.set_case({'op': 'work-buffer', 'fn': 'tableaux', 'contents': list(sh)})
+        ctx.case('history-buffer', sh)
+        with ctx.guard('history/work-buffer'):
+            f = ry.syt_count_hook(sh)
+            sbuf[...] = sh
+            slst[:] = list(sh)
+            for arg in (sbuf, slst):
+                z = G.get_all_young_tableaux(arg)
+                ctx.check(isinstance(z, np.ndarray) and len(z) == f, 'tableaux/stale-after-inplace-update',
+                          'a refilled shape buffer gives the tableaux of its earlier contents', {'contents': list(sh), 'arg': type(arg).__name__}, point='workload/history')
+                G.get_young_diagram_transpose(arg)
+                G.get_young_diagram_mask(arg)
+
+    # ---- (4) integer types, containers, dtypes and memory layouts of the same values
+    for nm, t in [('S3', rf.ref_symmetric(3)), ('Q8', rf.ref_quaternion()), ('D5', rf.ref_dihedral(5)), ('A4', rf.ref_symmetric(4, True))]:
+        N = len(t)
+        ctx.set_case({'op': 'layouts', 'group': nm})
+        ctx.case('history-layout', nm)
+        with ctx.guard('history/layout'):
+            L0 = G.cayley_table_to_left_regular_form(t)
+            big = np.zeros((2 * N, 2 * N), dtype=np.int64)
+            big[::2, ::2] = t
+            tvars = {'int32': t.astype(np.int32), 'fortran': np.asfortranarray(t), 'strided-view': big[::2, ::2],
+                     'transposed-view': np.ascontiguousarray(t.T).T, 'list-of-lists': t.tolist(), 'tuple-of-tuples': tuple(tuple(r) for r in t.tolist()),
+                     'list-of-rows': [r.copy() for r in t], 'uint8': t.astype(np.uint8)}
+            for vn, tv in tvars.items():
+                ctx.check(_eq(G.cayley_table_to_left_regular_form(tv), L0), 'left_regular/layout-dependent',
+                          'the same table in another container / dtype / memory layout gives a different left regular form', {'group': nm, 'variant': vn},
+                          point='workload/history')
+            ncls = len(rf.conjugacy_classes(t))
+            bigL = np.zeros((N, 2 * N, 2 * N), dtype=np.complex128)
+            bigL[:, ::2, ::2] = L0
+            Lvars = {'int64': L0, 'float64': L0.astype(np.float64), 'complex128': L0.astype(np.complex128), 'fortran': np.asfortranarray(L0.astype(np.float64)),
+                     'strided-view': bigL[:, ::2, ::2], 'int32': L0.astype(np.int32),
+                     'axes-moved-view': np.ascontiguousarray(np.moveaxis(L0.astype(np.complex128), 0, 2)).transpose(2, 0, 1)}
+            dims0 = None
+            for vn, Lv in Lvars.items():
+                ir = G.reduce_group_representation(Lv)     # every variant judged by the contract (snapshot of the values)
+                dims = sorted(x.shape[1] for x in ir) if isinstance(ir, list) else None
+                dims0 = dims if dims0 is None else dims0
+                ctx.check(dims == dims0 and dims is not None and len(dims) == ncls, 'reduce/layout-dependent',
+                          'the same representation in another dtype / memory layout is reduced differently', {'group': nm, 'variant': vn, 'dims': dims, 'first': dims0},
+                          point='workload/history')
+    for sh in [(3, 2, 1), (4, 2), (2, 2, 1, 1), (5, 1, 1)]:
+        ctx.set_case({'op': 'argument-types', 'young': list(sh)})
+        ctx.case('history-layout', sh)
+        with ctx.guard('history/layout'):
+            z0 = G.get_all_young_tableaux(sh)
+            bigs = np.zeros(2 * len(sh), dtype=np.int64)
+            bigs[::2] = sh
+            svars = {'list': list(sh), 'ndarray-int64': np.array(sh), 'ndarray-int32': np.array(sh, dtype=np.int32), 'strided-view': bigs[::2],
+                     'tuple-of-np.int64': tuple(np.int64(x) for x in sh), 'reversed-view': np.array(sh[::-1])[::-1]}
+            for vn, sv in svars.items():
+                ctx.check(_eq(G.get_all_young_tableaux(sv), z0), 'tableaux/argument-type-dependent',
+                          'the same shape as list / ndarray / view / numpy integers gives different tableaux', {'young': list(sh), 'variant': vn}, point='workload/history')
+                ctx.check(_eq(np.asarray(G.get_young_diagram_transpose(sv)), np.asarray(G.get_young_diagram_transpose(sh))), 'young_transpose/argument-type-dependent',
+                          'transpose depends on the container / integer type', {'young': list(sh), 'variant': vn})
+                G.get_young_diagram_mask(sv)
+            ctx.check(G.get_hook_length(*[np.int64(x) for x in sh]) == G.get_hook_length(*sh), 'hook_length/int-type-dependent',
+                      'numpy-integer row lengths give another value', {'young': list(sh)}, point='workload/history')
+    for n in (3, 4, 5):
+        ctx.set_case({'op': 'numpy-integer-n', 'n': n})
+        with ctx.guard('history/int-types'):
+            ni = np.int64(n)
+            for nm, f in [('table/symmetric', lambda k: G.get_symmetric_group_cayley_table(k)), ('table/alternating', lambda k: G.get_symmetric_group_cayley_table(k, alternating=True)),
+                          ('table/dihedral', G.get_dihedral_group_cayley_table), ('table/cyclic', G.get_cyclic_group_cayley_table),
+                          ('table/multiplicative', G.get_multiplicative_group_cayley_table), ('num_irrep', G.get_sym_group_num_irrep),
+                          ('young_diagram', G.get_sym_group_young_diagram)]:
+                ctx.check(_eq(f(ni), f(n)), f'{nm}/int-type-dependent', 'numpy-integer parameter gives a different result than the python int', {'n': n},
+                          point='workload/history')
+
+    # ---- (2) repeat the first configurations at the end, now S_n before A_n and upwards
+    ctx.workload('corner')
+    for n in (2, 3, 4, 5):
+        group_case('symmetric', (n,), lambda: sym(n), irreps=(n <= 3))
+        group_case('alternating', (n,), lambda: alt(n), irreps=(n <= 3))
+    for n in (3, 8, 12):
+        group_case('cyclic', (n,), lambda: cyc(n), irreps=False)
+        group_case('dihedral', (n,), lambda: dih(n), irreps=False)
+        group_case('multiplicative', (n,), lambda: mul(n), irreps=False)
+    group_case('quaternion', (), qua, irreps=False)
+    partition_cases([30, 7, 1], 7)
+    shape_case((3, 2, 1))
 
 
 def _run_repo_tests(ctx, files):
